@@ -270,6 +270,9 @@ func (t *Target) intercept(ctx context.Context, req interface{}, info *grpc.Unar
 		}
 		sort.Strings(keys)
 		for _, k := range keys {
+			if k == "x-prev" { // (isolation runs) the value a later scenario step carries from an earlier one: not this call's own token
+				continue
+			}
 			for _, v := range md[k] {
 				pre, tok := SplitTok(v)
 				mds = append(mds, E{"k": k, "v": v, "pre": pre, "tok": tok})
@@ -288,8 +291,21 @@ func (t *Target) intercept(ctx context.Context, req interface{}, info *grpc.Unar
 		conn, _ = ctx.Value(connKey{}).(int)
 	}
 	ans := t.answerFor(pres)
+	// (isolation runs, FailShare) Auth is the step whose answer a later step quotes; Order carries it back in x-prev
+	capStep, from, prev := "", "", ""
+	if t.FailShare {
+		switch {
+		case strings.HasSuffix(m, ".Auth"):
+			capStep = "c1"
+		case strings.HasSuffix(m, ".Order"):
+			from, prev = "c1", "<none>"
+			if md, ok := metadata.FromIncomingContext(ctx); ok && len(md.Get("x-prev")) > 0 {
+				_, prev = SplitTok(md.Get("x-prev")[0])
+			}
+		}
+	}
 	t.rec.Emit(E{"ev": "Recv", "proto": "grpc", "srv": t.name, "conn": conn, "method": m, "fields": fields, "md": mds, "toks": toks, "ans": ans.String(),
-		"authority": authority, "reflmd": reflmd})
+		"authority": authority, "reflmd": reflmd, "cap": capStep, "from": from, "prev": prev})
 	if ans != codes.OK {
 		return nil, status.Error(ans, "the target answers this entry with "+ans.String())
 	}
